@@ -155,17 +155,99 @@ fn c13_p3_enact_logs_validation_gate() {
 }
 
 
+/// C13.P3g: the same gate over *arbitrary* bytes (16 bytes, any truncation) with the checksum uninterpreted: whatever the
+/// bytes are, a record is applied only if it is complete, carries the stored checksum the reader computed, and is numbered
+/// last_enacted + 1; a record out of sequence or structurally wrong empties the replay queue; nothing else moves last_enacted.
+fn p3g_case(n: usize, t0: u8, t9: u8) {
+	// action tags concrete per harness (0xff = leave symbolic): with symbolic tags every next() forks seven ways and the
+	// validation loop unwinds on a symbolic read position (did not leave symbolic execution in 10 min)
+	crate::log::verif_kani::log_set_len(n);
+	if t0 != 0xff { crate::log::verif_kani::log_poke(0, t0); }
+	if t9 != 0xff { crate::log::verif_kani::log_poke(9, t9); }
+	unsafe { crate::verif_common::CRC_VAL = kani::any(); }
+	let db = mk_db(opts(0), 0, false);
+	let last: u64 = kani::any();
+	kani::assume(last < u64::MAX - 1);
+	db.last_enacted.store(last, Ordering::Relaxed);
+	crate::log::verif_kani::log_attach_reader(&db.log, 3);
+	crate::log::verif_kani::log_queue_replay(&db.log, 4, 77);
+	let r = db.enact_logs(true);
+	let b = crate::log::verif_kani::log_bytes();
+	let rid = u64::from_le_bytes([b[1], b[2], b[3], b[4], b[5], b[6], b[7], b[8]]);
+	let stored = u32::from_le_bytes([b[10], b[11], b[12], b[13]]);
+	let crc = unsafe { crate::verif_common::CRC_VAL };
+	let now = db.last_enacted.load(Ordering::Relaxed);
+	// without columns the only valid record within 16 bytes is Begin(id) End(checksum)
+	let minimal_valid = n >= 14 && b[0] == 1 && b[9] == 4 && stored == crc;
+	match &r {
+		Ok(true) => {
+			assert!(b[0] == 1 && n >= 14, "C13.P3 an applied record is complete and starts with BeginRecord");
+			assert!(rid == last + 1, "C13.P3 only the record numbered last_enacted + 1 is applied");
+			assert!(b[9] == 4 && stored == crc, "C13.P3 an applied record passed the checksum and every action validated");
+			assert!(now == rid, "C13.P3 last_enacted advances to the applied record");
+		},
+		_ => {
+			assert!(now == last, "C13.P3 a rejected record leaves last_enacted unchanged");
+			assert!(!(minimal_valid && rid == last + 1), "C13.P3 a complete, checksum-valid record with the expected number is applied");
+		},
+	}
+	if n >= 9 && b[0] == 1 && rid != last + 1 {
+		assert!(matches!(r, Ok(false)), "C13.P3 a record out of sequence is refused without error");
+		assert!(crate::log::verif_kani::log_replay_len(&db.log) == 0, "C13.P3 an out-of-sequence record discards all remaining logs");
+	}
+	if n >= 1 && b[0] != 1 && b[0] >= 2 && b[0] <= 7 {
+		assert!(crate::log::verif_kani::log_replay_len(&db.log) == 0, "C13.P3 a log that does not start with BeginRecord discards all remaining logs");
+	}
+	// witnesses (one program point each; which region is reachable depends on the record shape of the harness)
+	let full = n >= 14 && t0 == 1 && t9 == 4;
+	kani::cover!(if full { matches!(r, Ok(true)) } else { !matches!(r, Ok(true)) });
+	kani::cover!(if full { matches!(r, Ok(false)) && minimal_valid } else { true });
+	kani::cover!(if full { stored != crc && rid == last + 1 } else { true });
+	std::mem::forget(r);
+	std::mem::forget(db);
+}
+
+macro_rules! c13_p3g {
+	($name:ident, $n:expr, $t0:expr, $t9:expr) => {
+		crate::verif_env! {
+			#[kani::proof]
+			#[kani::unwind(20)]
+			#[kani::stub(<std::fs::File as std::io::Read>::read, crate::log::verif_kani::stub_file_read)]
+			#[kani::stub(<std::fs::File as std::io::Seek>::seek, crate::log::verif_kani::stub_file_seek_back)]
+			#[kani::stub(crc32fast::Hasher::internal_new_specialized, crate::verif_common::no_specialized_crc)]
+			#[kani::stub(crc32fast::Hasher::update, crate::verif_common::crc_update_noop)]
+			#[kani::stub(crc32fast::Hasher::finalize, crate::verif_common::crc_finalize_uninterpreted)]
+			#[kani::stub(<std::os::fd::OwnedFd as std::ops::Drop>::drop, crate::verif_common::fd_drop_noop)]
+			fn $name() { p3g_case($n, $t0, $t9) }
+		}
+	};
+}
+c13_p3g!(c13_p3g_gate_begin_end, 14, 1, 4);
+c13_p3g!(c13_p3g_gate_begin_begin, 14, 1, 1);
+c13_p3g!(c13_p3g_gate_begin_insert_value, 16, 1, 3);
+c13_p3g!(c13_p3g_gate_begin_insert_index, 16, 1, 2);
+c13_p3g!(c13_p3g_gate_begin_drop_table, 16, 1, 5);
+c13_p3g!(c13_p3g_gate_begin_unknown_tag, 14, 1, 0x55);
+c13_p3g!(c13_p3g_gate_begin_only, 9, 1, 0xff);
+c13_p3g!(c13_p3g_gate_begin_torn, 5, 1, 0xff);
+c13_p3g!(c13_p3g_gate_begin_end_torn, 13, 1, 4);
+c13_p3g!(c13_p3g_gate_starts_with_end, 14, 4, 0xff);
+c13_p3g!(c13_p3g_gate_starts_with_insert, 14, 3, 0xff);
+c13_p3g!(c13_p3g_gate_empty_file, 0, 0xff, 0xff);
+
+
 // =====================================================================================
 // C12.O3b: DbInner::clean_logs — every truncated log file was waiting for cleanup BEFORE the table flush began and
 // every table of every column was flushed before the first truncation; a log that finishes enacting while the
 // flush is in progress (environment nondeterminism) is never truncated by this round.
 // =====================================================================================
-fn clean_logs_db_case(nq: usize, race: bool) {
+fn clean_logs_db_case(nq: usize, race: bool, sync_data: bool) {
 	let vl = crate::log::verif_kani::fev_reset;
 	vl();
 	let mut o = opts(1);
-	o.sync_data = kani::any();
-	let sync_data = o.sync_data;
+	// concrete per harness: with a symbolic flag the number of logs to clean is symbolic and the VecDeque drain / sort of
+	// Log::clean_logs runs on symbolic lengths (30 min without leaving symbolic execution)
+	o.sync_data = sync_data;
 	let mut db = mk_db(o, 1, false);
 	db.columns.push(crate::column::verif_kani::mini_plain_column(false));
 	if nq >= 1 { crate::log::verif_kani::log_push_cleanup(&db.log, 1, 11); }
@@ -202,7 +284,7 @@ fn clean_logs_db_case(nq: usize, race: bool) {
 }
 
 macro_rules! c12_o3b {
-	($name:ident, $nq:expr, $race:expr) => {
+	($name:ident, $nq:expr, $race:expr, $sd:expr) => {
 		crate::verif_tbl! {
 			#[kani::proof]
 			#[kani::unwind(26)]
@@ -210,10 +292,11 @@ macro_rules! c12_o3b {
 			#[kani::stub(std::fs::File::set_len, crate::log::verif_kani::stub_set_len)]
 			#[kani::stub(std::fs::File::sync_all, crate::log::verif_kani::stub_sync_all)]
 			#[kani::stub(<std::os::fd::OwnedFd as std::ops::Drop>::drop, crate::verif_common::fd_drop_noop)]
-			fn $name() { clean_logs_db_case($nq, $race) }
+			fn $name() { clean_logs_db_case($nq, $race, $sd) }
 		}
 	};
 }
-c12_o3b!(c12_o3b_db_clean_logs_q1, 1, false);
-c12_o3b!(c12_o3b_db_clean_logs_q2_race, 2, true);
-c12_o3b!(c12_o3b_db_clean_logs_q1_race, 1, true);
+c12_o3b!(c12_o3b_db_clean_logs_q1, 1, false, true);
+c12_o3b!(c12_o3b_db_clean_logs_q2_race, 2, true, true);
+c12_o3b!(c12_o3b_db_clean_logs_q1_race, 1, true, true);
+c12_o3b!(c12_o3b_db_clean_logs_q2_nosync, 2, false, false);
